@@ -112,6 +112,11 @@ func prepare(sc Scenario, scratch string, seed int64) (*prepared, error) {
 	case "symlink":
 		os.Remove(filepath.Join(dir, "l"))
 		p.damaged = sc.Symlink
+	case "rmroot":
+		// the target directory does not exist at all: the validate worker cannot even
+		// open its pool and reports an error of its own (worker-error path)
+		os.RemoveAll(dir)
+		p.damaged = true
 	default:
 		return nil, fmt.Errorf("bad damage %q", sc.Damage)
 	}
@@ -176,7 +181,7 @@ func scenarios(quick bool) []Scenario {
 	var per [][]Scenario
 	for bi, b := range builds {
 		var list []Scenario
-		dmgs := []string{"none", "first", "last", "all", "nodirs", "symlink"}
+		dmgs := []string{"none", "first", "last", "all", "nodirs", "symlink", "rmroot"}
 		for _, dmg := range dmgs {
 			if dmg == "nodirs" && !b.dir || dmg == "symlink" && !b.sym {
 				continue
@@ -190,7 +195,7 @@ func scenarios(quick bool) []Scenario {
 				}
 				for _, capacity := range []int{1, 2, 0} {
 					// capacities only matter when there can be >= 2 wounds
-					if capacity != 1 && dmg != "all" {
+					if capacity != 1 && dmg != "all" && dmg != "rmroot" {
 						continue
 					}
 					if quick && capacity == 2 {
